@@ -28,6 +28,7 @@ import (
 
 	"verif/mc/explore"
 	"verif/mc/runner"
+	"verif/mc/vrand"
 )
 
 // ---- tiny block parser for the (well-formatted) test vectors ---------------------------------
@@ -550,8 +551,20 @@ func judge(sc *Scn, fail func(sig, msg string)) {
 		fail("adapt-error", fmt.Sprintf("a Caddyfile written according to the documented syntax does not adapt: %v\n%s", err, cf))
 		return
 	}
-	// (Go starts the iteration of a small map at one of 8 offsets: an order that depends on it
-	// differs between two runs with probability ~0.2, so 40 repetitions miss it once in 200)
+	// the order in which the repository's code ranges over its maps is the harness's to decide
+	// (overlay feature maprange): ascending and descending key order must adapt to the same JSON
+	for mode := 1; mode <= 2; mode++ {
+		vrand.MapMode = mode
+		ordered, _, err2 := adapter.Adapt([]byte(cf), map[string]any{"filename": "Caddyfile"})
+		vrand.MapMode = 0
+		if err2 != nil || string(ordered) != string(out) {
+			fail("adapt-depends-on-map-order", fmt.Sprintf("the adapted JSON depends on the order in which a map is iterated (here: keys %s)\n%s\n%s\n%s", map[int]string{1: "ascending", 2: "descending"}[mode], cf, out, ordered))
+			return
+		}
+	}
+	// ... and what is not under the harness's control is repeated (Go starts the iteration of a
+	// small map at one of 8 offsets: an order that depends on it differs between two runs with
+	// probability ~0.2, so 40 repetitions miss it once in 200)
 	for i := 0; i < 40; i++ {
 		again, _, err2 := adapter.Adapt([]byte(cf), map[string]any{"filename": "Caddyfile"})
 		if err2 != nil || string(again) != string(out) {
